@@ -23,3 +23,25 @@ Definition single_ok (r : presp) : bool :=
   | _ => false
   end.
 
+(* ---------- several parts (multipart/byteranges): the domain of C15_multi_part_round_trip ---------- *)
+Definition hsolid (s : list N) : bool := match s with c :: _ => N.ltb c 128 && negb (ascii_ws c) | [] => false end.
+Definition BD : list N := Rg_STRING_SEPARATOR.
+Definition ct_line (ty : list N) : list N := Hd_CONTENT_TYPE ++ COLON_SP ++ [32] ++ ty ++ CRLF.
+Definition cr_line (st en z : N) : list N := Hd_CONTENT_RANGE ++ COLON_SP ++ [32] ++ (Rg_BYTES ++ [32] ++ show_N st ++ [45] ++ show_N en ++ [47] ++ show_N z) ++ CRLF.
+(* a body line ends the part when it is valid UTF-8 and contains the separator *)
+Definition stops (line : list N) : bool := utf8_valid line && contains line BD.
+Fixpoint blines_ok (fuel : nat) (s : list N) : bool :=
+  match fuel with O => true | S f =>
+  match s with [] => true | _ => let (l, r) := split_line s in negb (stops l) && blines_ok f r end end.
+Definition mtype_ok (ty : list N) : bool :=
+  clean_b ty && utf8_valid ty && hsolid ty && hsolid (rev ty) && negb (contains (ct_line ty) BD).
+Definition mpart_ok (p : N * N * list N * list N * list N) : bool :=
+  mtype_ok (pr_type p) &&
+  match digits_val 0 (pr_size p) with
+  | Some z => beqs (pr_size p) (show_N z) && N.leb (pr_start p) (pr_end p) && N.leb (pr_end p) z && N.ltb z (2 ^ 63)
+  | None => false
+  end && blines_ok (S (length (pr_body p ++ CRLF))) (pr_body p ++ CRLF).
+(* two or more parts, each with a clean type text and a body no line of which is valid UTF-8 and contains the separator text *)
+Definition multi_ok (r : presp) : bool :=
+  resp_status_ok (pr_version r) (pr_status r) (pr_reason r) && forallb user_header_ok (pr_headers r) &&
+  match pr_ranges r with _ :: _ :: _ => forallb mpart_ok (pr_ranges r) | _ => false end.
